@@ -67,13 +67,16 @@ NOT_COVERED = (
 
 POLE = "/repo/tests/data/pole"  # IERS tables are data; always the repository's test data
 BUILTIN = ["EME2000", "MOD", "TOD", "TEME", "PEF", "ITRF", "TIRF", "CIRF", "GCRF", "G50"]
-EXTRA = ["S1", "S2", "O0", "OQ", "OT", "Moon", "Sun"]
+EXTRA = ["S1", "S2", "SE", "O0", "OQ", "OT", "V0", "VQ", "VT", "Moon", "Sun"]
 FRAMES = BUILTIN + EXTRA
 CLUSTER = dict(EME2000="80", MOD="80", TOD="80", TEME="80", G50="80", PEF="F", ITRF="F", TIRF="F", CIRF="10", GCRF="10")
 ROTATING = {"PEF", "ITRF", "TIRF", "S1", "S2"}
-KLASS = dict(S1="station", S2="station", O0="orbit-inertial", OQ="orbit-lof", OT="orbit-lof", Moon="body", Sun="body")
+KLASS = dict(S1="station", S2="station", SE="station-eq", O0="orbit-inertial", OQ="orbit-lof", OT="orbit-lof",
+             V0="sv-inertial", VQ="sv-lof", VT="sv-lof", Moon="body", Sun="body")
 STATIONS = dict(S1=(43.604482, 1.443962, 172.0), S2=(-33.45, -70.66, 520.0))
-LOF_KEP = [7000e3, 0.001, 0.9, 0.3, 0.2, 0.1]
+LOF_KEP = [7000e3, 0.001, 0.9, 0.3, 0.2, 0.1]  # O0/OQ/OT: attached to a propagating (Kepler) Orbit
+SV_KEP = [6900e3, 0.002, 1.2, 1.0, 0.4, 2.0]  # V0/VQ/VT: attached to a plain, non-propagating StateVector
+SE_SITE = (18.9, -155.6, 30.0)  # SE: "equatorial" station (EME2000 axes, centre on the ground)
 
 # (year, month, day, hour, minute, second, microsecond) UTC
 DATES = [
@@ -89,8 +92,17 @@ DATES = [
     (2015, 7, 15, 23, 59, 30, 0),  # 9
     (2016, 2, 9, 0, 0, 30, 0),  # 10 MJD 57427, among the last rows with LOD
     (2016, 6, 15, 12, 0, 0, 0),  # 11 MJD 57554: LOD, dPsi/dEps, dX/dY blank (prediction rows)
+    # The 0.00264" sin(Om) kinematic term of the equation of the equinoxes vanishes around its own switch date
+    # (Om = 180 deg on 1997-02-27), so dates 4/5 cannot see a wrong switch epoch: the next four have |sin Om| ~ 1.
+    (1992, 7, 1, 9, 15, 0, 0),  # 12 Om = 270 deg: no kinematic term yet (window 1992-02-27 .. 1997-02-27 of a wrong epoch)
+    (1994, 6, 15, 6, 0, 0, 0),  # 13 Om = 232 deg: no kinematic term yet
+    (1983, 3, 1, 3, 0, 0, 0),  # 14 Om = 91 deg: no kinematic term
+    (2001, 10, 15, 21, 0, 0, 0),  # 15 Om = 91 deg: kinematic term present at full size (+2.64 mas)
 ]
 QUICK_DATES = {"real": [0, 4, 5, 7, 11], "zero": [2, 8], "pass": [7], "warning": [5]}
+QUICK_LIGHT = {"real": list(range(16)), "zero": [2, 8, 12, 13, 15], "pass": [12, 15], "warning": [13, 14]}  # edges + matrices only
+QUICK_HISTORY = {"real": [7], "zero": [12], "pass": [], "warning": []}
+THOROUGH_HISTORY = {"real": [0, 5, 7, 11], "zero": [8, 12], "pass": [7], "warning": [5]}
 # The property's kinematic clause quantifies over orbit-attached frames as well.  With QSW/TNW orientation the library
 # converts velocities with a frozen triad (no -w x r term for the rotation of the local orbital frame), which the
 # finite-difference check reports as `kinematics/orbit-lof`.  Set to False only if the property is re-read as
@@ -208,6 +220,14 @@ def get_ctx(dt):
     orbit2frame("O0", orb, None)
     orbit2frame("OQ", orb, "QSW")
     orbit2frame("OT", orb, "TNW")
+    refs = {"O0/OQ/OT": orb}
+    from beyond.orbits import StateVector
+
+    sv_rv = tb.kep_to_cart(*SV_KEP, Earth.mu)
+    for name, orientation in (("V0", None), ("VQ", "QSW"), ("VT", "TNW")):
+        refs[name] = StateVector(np.array(sv_rv, dtype=float), date, "cartesian", "EME2000")  # one object per frame
+        orbit2frame(name, refs[name], orientation)
+    create_station("SE", SE_SITE, equatorial=True)
     solarsystem.get_frame("Moon")
     solarsystem.get_frame("Sun")
     mu = Earth.mu
@@ -229,10 +249,13 @@ def get_ctx(dt):
         states=states,
         frames={f: get_frame(f) for f in FRAMES},
         n_lof=math.sqrt(mu / LOF_KEP[0] ** 3),
-        R_origin=dict(S1=6.4e6, S2=6.4e6, O0=LOF_KEP[0] * 1.002, OQ=LOF_KEP[0] * 1.002, OT=LOF_KEP[0] * 1.002),
+        R_origin=dict(S1=6.4e6, S2=6.4e6, SE=6.4e6, O0=LOF_KEP[0] * 1.002, OQ=LOF_KEP[0] * 1.002, OT=LOF_KEP[0] * 1.002),
         mu=mu,
         memo={},
     )
+    for f in ("S1", "S2", "SE"):
+        refs[f] = cur["frames"][f].center.offset  # the station coordinates handed to the centre
+    cur["refs"] = {k: (obj, np.array(obj, dtype=float).copy()) for k, obj in refs.items()}
     kind = _G["kind"]
     cur["ref"] = er.EarthRotation(mjd, sod, ref_eop(kind, mjd), _nut_table())
     _G["ctx"] = cur
@@ -342,6 +365,56 @@ def check_triple(ctx, cfg, si, A, B, C, t):
     t.outcome((what, sides, bool(okp and okv)))
 
 
+def check_repeat(ctx, cfg, si, t, frames=FRAMES):
+    """Every first and second leg executed during the triples is executed once more: bit-identical results are required
+    (the conversions are pure functions of state, date and frame definitions), and the objects the orbit-attached frames
+    and stations were created from must still hold their original numbers."""
+    case = dict(kind="repeat", config=cfg, date=list(ctx["dt"]), state=si)
+    memo = ctx["memo"]
+    base = ctx["states"][si]["base"]
+    bad1 = bad2 = None
+    n = 0
+    try:
+        for A in frames:
+            sv = make_sv(ctx, si)
+            xa = sv if A == base else convert(sv, A)
+            old = memo.get(("A", si, A))
+            if old is not None and not np.array_equal(arr(old), arr(xa)) and bad1 is None:
+                bad1 = (A, arr(old), arr(xa))
+            for B in frames:
+                old = memo.get(("AB", si, A, B))
+                if B == A or old is None:
+                    continue
+                xb = convert(xa, B)
+                n += 1
+                if not np.array_equal(arr(old), arr(xb)) and bad2 is None:
+                    bad2 = (A, B, arr(old), arr(xb))
+    except LibraryRaised as e:
+        t.fail("repeatability/raises", "a conversion that succeeded once succeeds again", case, "a state", str(e))
+    if bad1:
+        A, o, x = bad1
+        t.fail("repeatability/first-leg", "the same conversion gives the same result when repeated", case, o.tolist(), x.tolist(),
+               f"{base}->{A} changed by {float(np.linalg.norm(o[:3] - x[:3])):.3e} m after the unit's other conversions")
+    if bad2:
+        A, B, o, x = bad2
+        t.fail("repeatability/second-leg", "the same conversion gives the same result when repeated", case, o.tolist(), x.tolist(),
+               f"{A}->{B} changed by {float(np.linalg.norm(o[:3] - x[:3])):.3e} m after the unit's other conversions")
+    check_refs(ctx, case, t)
+    t.trans(n + len(frames))
+    t.ev((cfg["eop"], ctx["dt"], "repeat", si))
+    t.states_add(1)
+    t.outcome(("repeat", bool(bad1 or bad2)))
+
+
+def check_refs(ctx, case, t):
+    for name, (obj, snap) in ctx["refs"].items():
+        now = np.array(obj, dtype=float)
+        if not np.array_equal(now, snap):
+            t.fail("reference-mutated", "conversions leave the state a frame was created from untouched", case, snap.tolist(), now.tolist(),
+                   f"reference of {name} moved by {float(np.linalg.norm(now[:3] - snap[:3])):.3e} m")
+            ctx["refs"][name] = (obj, now.copy())  # report each corruption once
+
+
 def run_triples(ctx, cfg, si, t, frames=FRAMES):
     n = 0
     for A in frames:
@@ -356,6 +429,7 @@ def run_triples(ctx, cfg, si, t, frames=FRAMES):
             t.ev((cfg["eop"], ctx["dt"], si, A, B), n=len(frames) - 1)
     t.states_add(n)
     t.trans(n + len(frames) * (len(frames) - 1) + len(frames))
+    check_repeat(ctx, cfg, si, t, frames)
     ctx["memo"].clear()
 
 
@@ -478,9 +552,10 @@ def fd_plan(ctx, si, B):
     The stencil stays inside one UTC day (EOP records are per-day constants: the position map jumps at midnight).
     """
     s = ctx["states"][si]
-    crossing = (s["base"] in ROTATING) != (B in ROTATING)
-    r_state = float(np.linalg.norm(s["rv0"][:3]))
-    L = r_state + ctx["R_origin"].get(B, 0.0)
+    # SE: inertial axes, but its origin is carried by the Earth's rotation
+    crossing = ((s["base"] in ROTATING) != (B in ROTATING)) or B == "SE"
+    r_state = max(float(np.linalg.norm(s["rv0"][:3])), ctx["R_origin"]["SE"] if B == "SE" else 0.0)
+    L = float(np.linalg.norm(s["rv0"][:3])) + ctx["R_origin"].get(B, 0.0)
     W = s["n"] + (ctx["n_lof"] if B in ("O0", "OQ", "OT") else 0.0) + (7.2921e-5 if crossing else 0.0)
     best = None
     for h in (120.0, 30.0, 10.0):
@@ -591,6 +666,135 @@ def check_error_policy(cfg, dt, t):
 
 
 # ---------------------------------------------------------------------------
+# (f) histories: a frame name re-bound to another definition, request order of conversions, repeated calls
+
+HIST_KINDS = ["lof-QSW", "lof-TNW", "orbit-inertial", "sv-QSW", "sv-inertial", "station", "station-eq"]
+HIST_GROUP = {"lof-QSW": "lof", "lof-TNW": "lof", "sv-QSW": "lof", "orbit-inertial": "translation", "sv-inertial": "translation",
+              "station": "station", "station-eq": "translation"}
+HIST_KEPS = [[7100e3, 0.003, 0.6, 1.1, 0.9, 0.4], [7600e3, 0.02, 1.45, 4.0, 2.2, 3.3]]
+HIST_SITES = [(48.35, 11.78, 450.0), (-25.89, 27.69, 1400.0)]
+HIST_SEQUENCE = [0, 1, 0]  # definition bound to the name at each step
+
+
+def hist_create(name, hkind, d, date):
+    """Register frame `name` of the given kind with definition number d."""
+    from mc.ref import twobody as tb
+    from beyond.constants import Earth
+    from beyond.orbits import Orbit, StateVector
+    from beyond.frames import create_station
+    from beyond.frames.frames import orbit2frame
+
+    if hkind in ("station", "station-eq"):
+        return create_station(name, HIST_SITES[d], equatorial=(hkind == "station-eq")), None
+    if hkind.startswith("sv-"):
+        ref = StateVector(np.array(tb.kep_to_cart(*HIST_KEPS[d], Earth.mu), dtype=float), date, "cartesian", "EME2000")
+    else:
+        ref = Orbit(list(HIST_KEPS[d]), date, "keplerian", "EME2000", "Kepler")
+    orientation = {"lof-QSW": "QSW", "lof-TNW": "TNW", "sv-QSW": "QSW"}.get(hkind)
+    return orbit2frame(name, ref, orientation, exists_warning=False), ref
+
+
+def run_history(cfg, dt, hkind, restore_between, order, t):
+    """One scenario, from the pristine registries: the name 'H' is bound to HIST_SEQUENCE's definitions in turn (with or
+    without a registry reset in between); after each binding a freshly named frame with the same definition is the
+    oracle (differential), and the usual identities are required.  `order` selects whether the direct conversion or
+    the one through an intermediate frame is requested first; every conversion is requested twice."""
+    from mc import world
+    from mc.ref import twobody as tb
+    from beyond.orbits import StateVector
+
+    dt = tuple(int(v) for v in dt)
+    if "snap" not in _G:
+        get_ctx(dt)
+    _G["ctx"] = None  # the date world is discarded
+    world.restore(_G["snap"])
+    date = mk_date(dt)
+    case = dict(kind="history", config=cfg, date=list(dt), hkind=hkind, restore=bool(restore_between), order=int(order))
+    grp = HIST_GROUP[hkind]
+    from beyond.constants import Earth
+
+    probes = {
+        "EME2000": np.array(tb.kep_to_cart(7200e3, 0.01, 1.1, 2.0, 0.5, 0.3, Earth.mu), dtype=float),
+        "ITRF": np.array([4.6e6, 1.2e5, 4.5e6, 10.0, -20.0, 5.0]),
+        "TOD": np.array([-2.0e7, 3.0e7, 1.0e7, -2000.0, -1500.0, 800.0]),
+    }
+    nconv = 0
+
+    def twice(sv, f):
+        a = convert(sv, f)
+        b = convert(sv, f)
+        if not np.array_equal(arr(a), arr(b)):
+            t.fail(f"history/repeat/{grp}", "the same conversion gives the same result when repeated", case, arr(a).tolist(), arr(b).tolist(),
+                   f"{sv.frame.name}->{f} twice in a row differs by {float(np.linalg.norm(arr(a)[:3] - arr(b)[:3])):.3e} m")
+        return a
+
+    try:
+        for k, d in enumerate(HIST_SEQUENCE):
+            if k and restore_between:
+                world.restore(_G["snap"])
+            _, ref = hist_create("H", hkind, d, date)
+            _, ref_f = hist_create(f"F{k}", hkind, d, date)
+            snaps = [(r, np.array(r, dtype=float).copy()) for r in (ref, ref_f) if r is not None]
+            for X, rv in probes.items():
+                x = StateVector(rv.copy(), date, "cartesian", X)
+                vias = [c for c in ("MOD", "ITRF") if c != X]
+                if order == 0:
+                    direct = twice(x, "H")
+                    via = [twice(twice(x, c), "H") for c in vias]
+                else:
+                    via = [twice(twice(x, c), "H") for c in vias]
+                    direct = twice(x, "H")
+                fresh = twice(x, f"F{k}")
+                back = twice(direct, X)
+                nconv += 2 * (3 + 2 * len(vias))
+                xd, xf, xb, x0 = arr(direct), arr(fresh), arr(back), arr(x)
+                tp, tv = tol_pv([x0, xd, xf])
+                what = f"binding {k} (definition {d}) {X}->H"
+                dp, dv = float(np.linalg.norm(xd[:3] - xf[:3])), float(np.linalg.norm(xd[3:] - xf[3:]))
+                t.margin("history: re-bound name vs freshly named frame [m / tol]", dp, tp, case)
+                if not (dp <= tp and dv <= tv):
+                    t.fail(f"history/differential/{grp}", "a frame behaves according to its current definition, whatever was registered under its name before",
+                           case, xf.tolist(), xd.tolist(), f"{what}: differs from the freshly named twin by {dp:.3e} m, {dv:.3e} m/s")
+                for c, v in zip(vias, via):
+                    xv = arr(v)
+                    dp, dv = float(np.linalg.norm(xd[:3] - xv[:3])), float(np.linalg.norm(xd[3:] - xv[3:]))
+                    t.margin("history: path independence [m / tol]", dp, tp, case)
+                    if not (dp <= tp and dv <= tv):
+                        t.fail(f"history/path/{grp}", "A->C->B equals A->B whatever the request order", case, xd.tolist(), xv.tolist(),
+                               f"{what} vs through {c}: {dp:.3e} m, {dv:.3e} m/s")
+                dp, dv = float(np.linalg.norm(xb[:3] - x0[:3])), float(np.linalg.norm(xb[3:] - x0[3:]))
+                t.margin("history: round trip [m / tol]", dp, tp, case)
+                if not (dp <= tp and dv <= tv):
+                    t.fail(f"history/roundtrip/{grp}", "A->B->A is the identity", case, x0.tolist(), xb.tolist(), f"{what}->{X}: {dp:.3e} m, {dv:.3e} m/s")
+            for r, snap in snaps:
+                if not np.array_equal(np.array(r, dtype=float), snap):
+                    t.fail("reference-mutated", "conversions leave the state a frame was created from untouched", case, snap.tolist(),
+                           np.array(r, dtype=float).tolist(), f"history {hkind} binding {k}")
+    except LibraryRaised as e:
+        t.fail(f"history/raises/{grp}", "re-created frames convert like any other", case, "a state", str(e))
+    finally:
+        world.restore(_G["snap"])
+        _G["ctx"] = None
+    t.trans(nconv)
+    t.ev((cfg["eop"], dt, "history", hkind, bool(restore_between), int(order)))
+    t.states_add(len(HIST_SEQUENCE))
+    t.outcome(("history", hkind, bool(restore_between), int(order)))
+
+
+def run_light(cfg, dt, t):
+    """Per-date checks only: reference edges and matrix structure."""
+    ctx = get_ctx(dt)
+    ctx["memo"].clear()
+    check_edges(ctx, cfg, t)
+    for A in BUILTIN:
+        for B in BUILTIN:
+            if A != B:
+                check_matrix(ctx, cfg, A, B, t)
+    check_refs(ctx, dict(kind="light", config=cfg, date=list(ctx["dt"])), t)
+    ctx["memo"].clear()
+
+
+# ---------------------------------------------------------------------------
 # dispatch
 
 
@@ -598,6 +802,10 @@ def check_case(case, t):
     cfg = case["config"]
     if case["kind"] == "policy-error":
         return check_error_policy(cfg, case["date"], t)
+    if case["kind"] == "history":
+        return run_history(cfg, case["date"], case["hkind"], case["restore"], case["order"], t)
+    if case["kind"] == "light":
+        return run_light(cfg, case["date"], t)
     ctx = get_ctx(case["date"])
     ctx["memo"].clear()
     k = case["kind"]
@@ -609,6 +817,8 @@ def check_case(case, t):
         check_fd(ctx, cfg, case["state"], case["B"], t)
     elif k == "edge":
         check_edges(ctx, cfg, t)
+    elif k == "repeat":
+        run_triples(ctx, cfg, case["state"], t)
     else:
         raise ValueError(k)
     ctx["memo"].clear()
@@ -619,6 +829,16 @@ def run_unit(p, t):
     if p["part"] == "policy-error":
         for dt in p["dates"]:
             check_error_policy(cfg, dt, t)
+        return
+    if p["part"] == "light":
+        for dt in p["dates"]:
+            run_light(cfg, dt, t)
+        return
+    if p["part"] == "history":
+        for hkind in HIST_KINDS:
+            for restore_between in (True, False):
+                for order in (0, 1):
+                    run_history(cfg, p["date"], hkind, restore_between, order, t)
         return
     ctx = get_ctx(p["date"])
     ctx["memo"].clear()
@@ -635,6 +855,9 @@ def run_unit(p, t):
         for B in FRAMES:
             if klass(B) == "body":
                 t.exclude("finite-difference kinematics in Moon/Sun-centred frames (not in the quantifier's frame list)")
+                continue
+            if klass(B) in ("sv-inertial", "sv-lof"):
+                t.exclude("finite-difference kinematics in frames attached to a fixed StateVector (such a frame is defined at the date of that state only)")
                 continue
             if klass(B) == "orbit-lof" and not LOF_KINEMATICS_IN_SCOPE:
                 t.exclude("finite-difference kinematics in QSW/TNW orbit-attached frames (frozen-axes reading)")
@@ -656,10 +879,17 @@ def units(tier, seed):
     for kind in kinds:
         cfg = {"eop": kind}
         idx = QUICK_DATES[kind] if tier == "quick" else range(len(DATES))
-        nstates = 3 if tier == "quick" else 4
+        # quick: GEO and ground-point states with the real tables only (identities are linear in the state)
+        nstates = (3 if kind == "real" else 1) if tier == "quick" else 4
         for i in idx:
             for si in range(nstates):
                 u.append((cfg, dict(part="main", config=cfg, date=list(DATES[i]), state=si, per_date=(si == 0))))
+        if tier == "quick":
+            light = [list(DATES[i]) for i in QUICK_LIGHT[kind] if i not in QUICK_DATES[kind]]
+            for k in range(0, len(light), 6):
+                u.append((cfg, dict(part="light", config=cfg, dates=light[k : k + 6])))
+        for i in (QUICK_HISTORY if tier == "quick" else THOROUGH_HISTORY)[kind]:
+            u.append((cfg, dict(part="history", config=cfg, date=list(DATES[i]))))
     cfg = {"eop": "error"}
     u.append((cfg, dict(part="policy-error", config=cfg, dates=[list(DATES[i]) for i in (QUICK_DATES["real"] if tier == "quick" else range(len(DATES)))])))
     return u
